@@ -178,6 +178,39 @@ PROPS["C07"] = {"theorems": [], "run": _run_ann,
                         "accepted the value"}
 
 
+def _run_sig(pid: str, tier: str, seed: int, spec: dict, scale: float = 1.0, salt: str = "") -> dict:
+    from . import sig_stream
+    out = sig_stream.run(pid, tier, seed, spec, scale, salt)
+    if pid == "C09":
+        # strictness of the default signature resolution: the C07 annotation stream under
+        # resolve_signature_typehint_default
+        from . import ann_stream
+        o2 = ann_stream.run(pid, tier, seed, {"resolver": "signature"}, scale * 0.6, salt)
+        for k in ("evaluations", "n_failures", "n_disagreements", "distinct_nontrivial"):
+            out[k] += o2[k]
+        out["failures"] += o2["failures"]
+        out["disagreements"] += o2["disagreements"]
+        out["distribution"] = {"signature_calls": out["distribution"], "strictness_annotations": o2["distribution"]}
+    return out
+
+
+def _replay_sig(case: dict) -> List[str]:
+    if "ann" in case:
+        return ["replay of annotation cases: run ./check C07 --replay"]
+    from . import sig_stream
+    return sig_stream.replay_case(case)
+
+
+_SIG_RULE = ("functions generated over the five parameter kinds (0-2 of each, annotated or not, defaults, overrides, "
+             "ignore_args / ignore_return, sync and async; 30% real `def`s built from source text, the rest generic-bodied "
+             "functions carrying the same inspect.Signature), one legal call shape each (positional / keyword / omitted, "
+             "extra *args and **kwargs incl. a keyword named like a positional-only parameter), valid / invalid values per "
+             "argument and for the return value; non-trivial = at least one checked parameter was supplied")
+PROPS["C08"] = {"theorems": [], "run": _run_sig, "replay": _replay_sig, "rule": _SIG_RULE}
+PROPS["C09"] = {"theorems": [], "run": _run_sig, "replay": _replay_sig, "rule": _SIG_RULE +
+                "; strictness: the C07 annotation grammar under the signature resolver x conforming values and look-alikes"}
+
+
 def run_core(pid: str, tier: str, seed: int, spec: dict, scale: float = 1.0, salt: str = "") -> dict:
     n = int((spec["quick_n"] if tier == "quick" else spec["thorough_n"]) * scale)
     opts = dict(spec.get("opts", {}))
